@@ -98,7 +98,7 @@ type caseRec struct {
 	Order  string   `json:"default_order"`
 	Prof   profT    `json:"profile"`
 	Events []Ev     `json:"events"`
-	Trace  string   `json:"trace"`
+	Trace  string   `json:"sync_trace"`
 	Oracle string   `json:"oracle"`
 	What   string   `json:"what"`
 	Diff   []string `json:"diff,omitempty"`
